@@ -296,6 +296,7 @@ func c01(run *ev.Run) int {
 	if stats.Violations > 0 {
 		run.Violation("c01/compressor-discipline", "custom (de)compressor used outside Reset..Close or concurrently", stats.Notes)
 	}
+	c01PlainStructCodec(run)
 	return run.Finish("calls", "pool.recycled_gets", "custom_algo.compressions")
 }
 
